@@ -286,10 +286,48 @@ def r3_leaf_and_root(ctx, outs, key):
     return outs_s
 
 
+def sort_direction(facts, ctx, call_event):
+    """'asc' / 'desc' / None for a slice sort call with a comparator or key closure over (score, move) pairs"""
+    name, args = call_event[1], call_event[2]
+    base = name.rsplit('::', 1)[-1]
+    clo = args[1] if len(args) > 1 else None
+    if not (isinstance(clo, tuple) and clo[0] == 'agg' and clo[1] == 'closure'):
+        return None
+    outs = [o for o in Engine(facts).run(clo[2]) if o.kind == 'return']
+    ctx.touch(clo[2])
+    if len(outs) != 1 or outs[0].conds:
+        return None
+    v = outs[0].value
+
+    def score_of(t):
+        """which comparator argument the term is the score (.0) of: 2 (first) / 3 (second)"""
+        t = strip_refs_t(t)
+        if t[0] == 'fld' and t[2] == '0':
+            r = strip_refs_t(t[1])
+            if r[0] == 'p':
+                return r[1]
+        return None
+    if base in ('sort_by', 'sort_unstable_by'):
+        if v[0] == 'call' and v[1].endswith('::cmp') and len(v[2]) == 2:
+            x, y = score_of(v[2][0]), score_of(v[2][1])
+            if (x, y) == (2, 3):
+                return 'asc'
+            if (x, y) == (3, 2):
+                return 'desc'
+        return None
+    if base in ('sort_by_key', 'sort_unstable_by_key', 'sort_by_cached_key'):
+        if v[0] == 'agg' and v[2] == 'std::cmp::Reverse' and len(v[4]) == 1 and score_of(v[4][0][1]) == 2:
+            return 'desc'
+        if score_of(v) == 2:
+            return 'asc'
+    return None
+
+
 def r4_root_selection(ctx, outs_s):
     rule = 'C08.R4-root-selection'
     facts = ctx.facts
     n = 0
+    SORTS = ('sort_by', 'sort_unstable_by', 'sort_by_key', 'sort_unstable_by_key', 'sort_by_cached_key')
     for o in outs_s:
         if o.kind != 'return' or not is_ok_result(o.value):
             continue
@@ -298,33 +336,19 @@ def r4_root_selection(ctx, outs_s):
         for a, v in o.conds:
             if a[0] == 'call' and a[1].endswith('Color::maximize_score'):
                 flag = 1 if is_true(v) else 0
-        names = [e[1] for e in o.events if e[0] == 'call']
-        seq = [x.rsplit('::', 1)[-1] for x in names if x.endswith('::sort_by') or x.endswith('::sort_unstable_by') or x.endswith('::reverse') or x.endswith('Vec::<T, A>::pop')]
-        want = ['sort_by', 'reverse', 'pop'] if flag == 1 else ['sort_by', 'pop']
-        ok = [s.replace('sort_unstable_by', 'sort_by') for s in seq] == want
-        ctx.ob(rule, SEARCH, '%s root: %s' % ('maximising' if flag else 'minimising', ' ; '.join(seq)), ok, found=seq, expected=want,
+        steps = [e for e in o.events if e[0] == 'call' and (e[1].rsplit('::', 1)[-1] in SORTS or e[1].endswith('::reverse') or e[1].endswith('Vec::<T, A>::pop'))]
+        seq = [e[1].rsplit('::', 1)[-1] for e in steps]
+        picked = None
+        if seq and seq[0] in SORTS and seq[-1] == 'pop' and all(x == 'reverse' for x in seq[1:-1]):
+            d = sort_direction(facts, ctx, steps[0])
+            if d is not None:
+                asc = (d == 'asc') != (len(seq[1:-1]) % 2 == 1)
+                picked = 'max' if asc else 'min'         # pop takes the last element
+        want = 'max' if flag == 1 else 'min'
+        ctx.ob(rule, SEARCH, '%s root takes the %s score' % ('maximising' if flag else 'minimising', want), picked == want,
+               found={'steps': seq, 'picked': picked}, expected='sort by score, then take the %s' % want,
                why='the move returned must attain the best score for the side to move')
     ctx.floor(rule, 'Ok paths of alpha_beta_search', n, 2)
-    # comparator: descending by score (b.cmp(a))
-    clo = SEARCH + '::{closure#1}'
-    fn = facts.fns.get(clo)
-    if fn is None:
-        ctx.anchor_missing(rule, clo)
-        return
-    outs = Engine(facts).run(clo)
-    ctx.touch(clo)
-    rets = [o for o in outs if o.kind == 'return']
-    ok = False
-    found = None
-    if len(rets) == 1:
-        v = rets[0].value
-        found = show(v)
-        if v[0] == 'call' and v[1].endswith('::cmp'):
-            a, b = v[2]
-            # args are references into (score, move) pairs: b.0 then a.0
-            sa, sb = show(a), show(b)
-            ok = 'arg3' in sa and 'arg2' in sb and sa.endswith('.0') and sb.endswith('.0')
-    ctx.ob(rule, clo, 'comparator orders by score, descending (b.cmp(a))', ok, found=found, expected='cmp(&b.score, &a.score)')
 
 
 def run(ctx):
